@@ -861,6 +861,11 @@ class CInterp:
             outs = []
             for s, p in self.eval(base, st):
                 for s2, i in self.eval(idx, s):
+                    if isinstance(p, Ptr) and p.obj is None and p.nullflag is None:
+                        # a definite NULL is indexed on this path: memory-safety obligation 'pc => false' (a path that only survived a
+                        # timed-out feasibility query is proved infeasible; a feasible one is reported); the path ends here
+                        self.oblige(s2, "bounds.%s" % self.func, False, n["_line"], meta={"what": "NULL pointer subscript"})
+                        continue
                     if not isinstance(p, Ptr) or p.obj is None:
                         raise Undecided("subscript of non-pointer %r in %s:%s" % (p, self.func, n["_line"]))
                     off = self.arith("+", p.idx, i, None, s2, n["_line"], nocheck=True)
@@ -869,6 +874,9 @@ class CInterp:
         if k == "UnaryOperator" and n["opcode"] == "*":
             outs = []
             for s, p in self.eval(n["inner"][0], st):
+                if isinstance(p, Ptr) and p.obj is None and p.nullflag is None:
+                    self.oblige(s, "bounds.%s" % self.func, False, n["_line"], meta={"what": "NULL pointer dereference"})
+                    continue
                 if not isinstance(p, Ptr) or p.obj is None:
                     raise Undecided("deref of %r in %s:%s" % (p, self.func, n["_line"]))
                 cur = s.mem[p.obj]
